@@ -19,6 +19,9 @@ def run(pids=None, jobs=4):
         if fn.endswith(".json"):
             for m in json.load(open(os.path.join(ROOT, "mutants", fn))):
                 if not pids or m["property"] in pids:
+                    # `*-drv.json`: mutants written for the bounded driver of a property (code outside the contracts' reach):
+                    # they are run with the driver switched on; all others must be killed by the contracts alone
+                    m["_with_driver"] = fn.endswith("-drv.json")
                     muts.append(m)
 
     def one(m):
@@ -32,7 +35,20 @@ def run(pids=None, jobs=4):
                 return (m, "anchor-lost", "")
             s = s.replace(m["from"], m["to"])
             open(p, "w").write(s)
-            env = dict(os.environ, VF_REPO=d, VF_EVIDENCE_DIR=os.path.join(d, "ev"), VF_NO_DRIVER="1")
+            env = dict(os.environ, VF_REPO=d, VF_EVIDENCE_DIR=os.path.join(d, "ev"))
+            if not m.get("_with_driver"):
+                env["VF_NO_DRIVER"] = "1"
+            else:
+                # the driver needs the whole workspace
+                for extra in ("Cargo.toml", "Cargo.lock"):
+                    shutil.copy(os.path.join(REPO, extra), os.path.join(d, extra))
+                shutil.copytree(os.path.join(REPO, "a2lmacros"), os.path.join(d, "a2lmacros"), ignore=shutil.ignore_patterns("target"))
+                for sub in ("Cargo.toml", "tests", "benches", "examples", "build.rs"):
+                    sp = os.path.join(REPO, "a2lfile", sub)
+                    if os.path.isdir(sp):
+                        shutil.copytree(sp, os.path.join(d, "a2lfile", sub))
+                    elif os.path.exists(sp):
+                        shutil.copy(sp, os.path.join(d, "a2lfile", sub))
             r = subprocess.run([sys.executable, "-m", "vf.check", m["property"]], cwd=ROOT, env=env,
                                capture_output=True, text=True)
             return (m, {0: "survived", 1: "killed", 2: "undecided"}.get(r.returncode, "rc%d" % r.returncode), r.stdout[-600:])
